@@ -120,7 +120,9 @@ RULE = ('dictionaries: 1-7 entries per level, depth <= 3, values drawn from scal
         'unsupported types, over-long / non-ASCII string arrays; spectra: native grids 8-60 points, 1-6 layers, '
         'bin grids 2-12 points, 3 binners x output sizes {0..7}; models: transmission/emission/directimage x '
         'temperature {isothermal, guillot, npoint, rodgers} x gases {constant, twolayer, power, array} x fill-gas '
-        'layouts x contributions {absorption, CIA, Rayleigh, clouds, flat Mie, Lee Mie, H-}. distinct non-trivial = '
+        'layouts x contributions {absorption, CIA, Rayleigh, clouds, flat Mie, Lee Mie, H-}; a history stream: the model '
+        'is evaluated, 1-3 parameters are changed through the public setters (fitting parameters, star.temperature), it '
+        'is evaluated again and then written and rebuilt. distinct non-trivial = '
         'distinct (stream, structural signature of the case)')
 ASSUMPTIONS = [
     'np.array(list) builds a numeric array iff all elements have equal shapes (recursively); dtype = widest of '
@@ -1576,6 +1578,36 @@ class InvalidSpec(Exception):
     pass
 
 
+def gen_history(rng):
+    """1-3 parameter changes applied between two evaluations of the model, before it is written.  Each is replayable
+    without knowing the model: `fit` picks the fitting parameter at the relative position `pick` of the sorted names and
+    multiplies its current value by `factor`; `star.temperature` uses the public property setter of the star."""
+    ops = []
+    if rng.random() < 0.6:
+        ops.append(dict(op='star.temperature', factor=rnd(rng, 0.6, 1.5)))
+    for _ in range(int(rng.integers(1, 3))):
+        ops.append(dict(op='fit', pick=float('%.4f' % rng.random()), factor=rnd(rng, 0.6, 1.5)))
+    return [ops[i] for i in rng.permutation(len(ops))]
+
+
+def apply_history(m, history):
+    """apply the parameter changes to the built (and already evaluated) model; returns the names changed"""
+    changed = []
+    for h in history:
+        if h['op'] == 'star.temperature':
+            m.star.temperature = float(m.star.temperature) * float(h['factor'])
+            changed.append('star.temperature')
+        else:
+            # (a fitting parameter whose current value is None - a coefficient left to an automatic profile - has no
+            # value to change and is not picked)
+            names = [n for n in sorted(m.fittingParameters) if isinstance(m[n], (int, float, np.integer, np.floating))]
+            name = names[min(int(float(h['pick']) * len(names)), len(names) - 1)]
+            cur = m[name]
+            m[name] = float(cur) * float(h['factor'])
+            changed.append(name)
+    return changed
+
+
 class LoaderProbe:
     """observes taurex.util.hdf5.load_generic_profile_from_hdf5 while a model is rebuilt: for every component
     group, the keyword arguments the real loader passes to the constructor vs Output.loadKwargs on the group's
@@ -1658,6 +1690,19 @@ def _eval_model(ctx, scratch, spec, stream='model'):
         res = m.model()
     except Exception as e:  # noqa  the configuration itself is not a valid model: not a C16 matter
         raise InvalidSpec(type(e).__name__)
+    if spec.get('history'):
+        # the model has a HISTORY before it is written: it was evaluated (above), then parameters were changed through the
+        # public setters (fitting-parameter interface, star.temperature), then it was evaluated again.  What is written and
+        # rebuilt must be the model as it is NOW: current parameter values, and the spectrum it returns now.
+        try:
+            changed = apply_history(m, spec['history'])
+            res = m.model()
+        except Exception as e:  # noqa  the changed parameter set is not a valid model: not a C16 matter
+            raise InvalidSpec('history:' + type(e).__name__)
+        for nm in changed:
+            ctx.bucket('model-history:changed:' + nm)
+        ctx.bucket('model-history:%s:%s' % (spec['model']['cls'], 'star-changed' if 'star.temperature' in changed
+                                            else 'star-unchanged'))
     fn = scratch.path()
     ctx.case(key=(stream, spec['model']['cls'], spec['temperature']['cls'],
                   tuple(sorted(g['cls'] for g in spec['chemistry'].get('gases', []))),
@@ -1988,6 +2033,21 @@ def stream_model(ctx, scratch):
             ctx.bucket('model-falsy:evaluated')
         except InvalidSpec as ex:
             ctx.malformed_outcome('falsy-invalid:%s:%s' % (falsy_label(e), ex))
+    # histories: the model is evaluated, parameters are changed through the public setters, it is evaluated again and
+    # only then written and rebuilt (what a retrieval does before it stores its solution; what a script does between two
+    # forward models) - every model kind by quota
+    k = 0
+    done = 0
+    want = ctx.n(36, 600)
+    while done < want and k < 4 * want:
+        spec = gen_model_spec(ctx.rng, k)
+        spec['history'] = gen_history(ctx.rng)
+        k += 1
+        try:
+            eval_model(ctx, scratch, spec, stream='model-history')
+            done += 1
+        except InvalidSpec as e:
+            ctx.malformed_outcome('model-history:%s' % e)
     for s in special_specs():
         try:
             eval_model(ctx, scratch, s, stream='model-special')
@@ -2127,7 +2187,7 @@ def replay(ctx, case):
             eval_spectrum(ctx, scratch, case)
         elif s == 'spectrum-reuse':
             eval_spectrum_reuse(ctx, scratch, case)
-        elif s in ('model', 'model-special', 'model-falsy'):
+        elif s in ('model', 'model-special', 'model-falsy', 'model-history'):
             eval_model(ctx, scratch, case['spec'], stream=s)
         else:
             raise C.InfraError('unknown C16 case ' + repr(s))
